@@ -191,7 +191,7 @@ class Check(core.PropertyCheck):
     REQUIRED_WITNESSES = ("curl", "httpie", "raw", "plain_ok", "ctl_body_ok", "several_headers", "refused") + \
         (() if REPAIRED else ("printf_form",))
     REQUIRED_ACTIONS = ("Export", "ExportRaw")
-    PROCS = 4
+    PROCS = 8
     ASSUMPTIONS = (
         "the shell is /bin/bash 5 (the httpie export uses <<<, a bashism); `executes only curl/http` is observed through a "
         "DEBUG trap (every simple command incl. builtins), command_not_found_handle, stub programs and a canary program",
@@ -258,7 +258,10 @@ class Check(core.PropertyCheck):
         rng = random.Random(ctx.seed + 48)
         g = models[0].graph
         behs = g.all_paths(2)
-        cap = 900 if ctx.quick else 9000
+        # the graph is no longer needed; drop it before the fork pool starts (every bash run forks the worker)
+        models[0].graph = None
+        del g
+        cap = 600 if ctx.quick else 9000
         if len(behs) > cap:
             ctx.rng.shuffle(behs)
             behs = behs[:cap]
@@ -272,7 +275,7 @@ class Check(core.PropertyCheck):
                 fmt, (field, s) = "raw", args
             yield self._scenario(fmt, field, s, rng.randrange(1 << 30), predicted=core.predicted_events(b))
         # beyond the model: strings of length 3..6 over the alphabet in one field (no prediction)
-        n_long = 200 if ctx.quick else 12000
+        n_long = 120 if ctx.quick else 7000
         for _ in range(n_long):
             fmt = rng.choice(("curl", "curl", "httpie", "raw"))
             field = rng.choice(self.FIELDS[:6] if fmt != "raw" else ("method", "path", "hname", "hval", "body"))
@@ -283,11 +286,11 @@ class Check(core.PropertyCheck):
         for i, pl in enumerate(PAYLOADS):
             for field in ("method", "host", "path", "hname", "hval", "body"):
                 for fmt in ("curl", "httpie"):
-                    if ctx.quick and (i + len(field) + len(fmt)) % 3 != ctx.seed % 3:
+                    if ctx.quick and (i + len(field) + len(fmt)) % 5 != ctx.seed % 5:
                         continue
                     yield core.Scenario({"fmt": fmt, "mixed": {field: pl}, "seed": rng.randrange(1 << 30)}, source="payload")
         # mixed requests: several fields at once, several headers, accept-encoding, preserve_original_ip, binary bodies
-        for _ in range(200 if ctx.quick else 8000):
+        for _ in range(150 if ctx.quick else 5000):
             fmt = rng.choice(("curl", "curl", "httpie", "raw"))
             mixed = {}
             for field in ("method", "host", "path", "body"):
@@ -412,14 +415,17 @@ class Check(core.PropertyCheck):
     # -- raw --
     def _raw_event(self, data, f, hdr_bytes, body, field):
         enc = lambda s: s.encode("utf-8", "surrogateescape")  # noqa: E731
-        p = parse_http1_request(data)
         want_h = [n + SEP.encode() + v for n, v in hdr_bytes]
+        try:
+            p = parse_http1_request(data)
+        except ValueError:
+            p = None
         if p is None:
             got = (b"<unparsable>",) * 3 + ([b"<unparsable>"], b"<unparsable>")
         else:
             got = p
         hw, hg = intern_lists(want_h, list(got[3]))
-        return {"k": "raw", "field": field, "cls": self._cls, "m": pair(enc(f["method"]), got[0]), "t": pair(enc("/" + f["path"]), got[1]),
+        return {"k": "raw", "field": field, "cls": self._cls, "parsed": p is not None, "m": pair(enc(f["method"]), got[0]), "t": pair(enc("/" + f["path"]), got[1]),
                 "v": pair(b"HTTP/1.1", got[2]), "h_w": hw, "h_g": hg, "b": pair(body, got[4])}
 
     # -- curl / httpie --
